@@ -40,6 +40,22 @@ def centroid(weights):
     return float((w.sum(axis=1) * i).sum() / s), float((w.sum(axis=0) * j).sum() / s)
 
 
+def xcorr_noise_px(image):
+    """Rounding-noise scale (px) of the sub-pixel peak of the auto-correlation of `image` when that
+    correlation is evaluated in single precision: a parabola through lags -1, 0, +1 has its vertex at
+    (v+ - v-) / (2 * (2 v0 - v+ - v-)); v+ - v- is zero in exact arithmetic and ~ eps32 * v0 in
+    complex64, so the vertex is uncertain by ~ eps32 * v0 / curvature.  Computed here in float64."""
+    w = np.asarray(image, dtype=np.float64)
+    F = np.fft.fft2(w)
+    ac = np.real(np.fft.ifft2(F * np.conj(F)))
+    kx = 2 * ac[0, 0] - ac[1, 0] - ac[-1, 0]
+    ky = 2 * ac[0, 0] - ac[0, 1] - ac[0, -1]
+    kmin = min(kx, ky)
+    if not kmin > 0:
+        return float("inf")
+    return float(np.finfo(np.float32).eps * ac[0, 0] / kmin)
+
+
 def content(R, C, seed, contrast):
     """Band-limited positive image: unit mean, smooth noise scaled to max |.| == contrast < 1."""
     from scipy.ndimage import gaussian_filter
